@@ -528,10 +528,12 @@ func disassemble(p program) (panicked string) {
 	return ""
 }
 
-// The two recorded defects of the disassembler, as predictions computed from the generated input
-// alone: the smallest size of a (resource, place) whose disassembly reads the entry number 128 of a
-// table through an operand that the disassembler sign-extends. Any other smallest failing size,
-// any other resource or any other panic is a violation.
+// A recorded defect of the disassembler is a prediction computed from the generated input alone:
+// the smallest size of a (resource, place) whose disassembly fails. Any other smallest failing
+// size, any other resource or any other panic is a violation. (The two classes there were —
+// funcNameType indexing Functions/NativeFunctions with the int8 operand, first failing size 129,
+// and fn.Types[int(uint(b))], first failing size 64/65 — were cured by 836cb24: no class is
+// defined, every panic of the disassembler is a violation.)
 type disasmClass struct {
 	id        string
 	resources []string
@@ -539,14 +541,7 @@ type disasmClass struct {
 	firstAll  int
 }
 
-var disasmClasses = []disasmClass{
-	// funcNameType indexes fn.Functions / fn.NativeFunctions with the int8 operand: the 129th
-	// function a function calls directly has index 128 = int8(-128)
-	{id: "disassembler-signed-function-index", resources: []string{"scriggo-functions", "native-functions"}, firstAll: 129},
-	// fn.Types[int(uint(b))] (and fn.Types[b]): uint(b) of a negative int8 sign-extends; the types
-	// resource adds two types per entry ([N]int8 and [][N]int8) after the place's own
-	{id: "disassembler-signed-type-index", resources: []string{"types"}, first: map[string]int{"main": 64, "template-block": 64, "function-literal": 65}},
-}
+var disasmClasses = []disasmClass{}
 
 func (k disasmClass) predicts(rname, pname string, n int) bool {
 	for _, r := range k.resources {
